@@ -83,7 +83,11 @@ def r14_1(ctx):
                 return guard == 'contiguous_window' and is_call(r, '::min', nargs=2) and \
                     any(strip(x)[0] == 'call' and strip(x)[1] == wk for x in call_args(r))
         if fnm in ('enqueue_one_with', 'dequeue_one_with'):
-            isok = p_call(lambda n: n.endswith('::is_ok'), True)
+            isok0 = p_call(lambda n: n.endswith('::is_ok'), True)
+            # `res.is_ok()` or its pattern form `if let Ok(_) = res`
+            cbres = lambda n: any(l.startswith('C:') and l.endswith('::call_once') for l in leafs(n))
+            isok = lambda f, isok0=isok0: isok0(f) or (f[0] == 'is' and f[2] == 'Ok' and f[3] == 'std::result::Result' and cbres(f[1])) or \
+                (f[0] == 'isnot' and f[3] == 'std::result::Result' and 'Err' in f[2] and cbres(f[1]))
             if unguarded(F, b, [w['bb']], isok):
                 ctx.bad(f"{fnm}|length|declined", f"{fnm} changes length although the callback declined (returned Err): the element was not "
                         f"{'written' if kind=='inc' else 'consumed'}", body=b, bb=w['bb'])
